@@ -248,6 +248,7 @@ def quantisation_exhaustive(ctx, bits):
     for layout in ((1, 1, -1), (1, -1, 16), (4, -1, 4) if bits == 8 else (4, -1, 64)):
         a = x.reshape(layout)
         back = denormalize_pixels_range(normalize_pixels_range(a), dt)
+        ctx.case(dict(values='0..%d' % top, dtype=str(np.dtype(dt)), layout=list(layout)), count=top + 1, nontrivial=layout == (1, 1, -1))
         ctx.check_true('identity-on-all-%d-values%s' % (top + 1, list(layout)), back.dtype == dt and np.array_equal(back, a))
     f = np.linspace(0.0, 1.0, 2 * top + 1).reshape(1, 1, -1)
     q = denormalize_pixels_range(f, dt)
